@@ -1,6 +1,9 @@
 package main
 
 import (
+	"go/constant"
+	"math/big"
+	"strconv"
 	"bytes"
 	"crypto/sha256"
 	"encoding/hex"
@@ -215,7 +218,91 @@ func (e *Engine) retOrds(fi *FuncInfo) map[token.Pos]int {
 // pkgVarInit: package-level variables initialised by simple composite literals of constants
 // (lookup tables) are supported read-only.
 func (e *Engine) pkgVarInit(fc *FCtx, o *types.Var) (Val, bool) {
+	if !isBigIntLike(o.Type()) {
+		return Val{}, false
+	}
+	var pkg *packages.Package
+	for _, p := range e.pkgs {
+		if p.Types == o.Pkg() {
+			pkg = p
+		}
+	}
+	if pkg == nil {
+		return Val{}, false
+	}
+	for _, f := range pkg.Syntax {
+		for _, d := range f.Decls {
+			gd, ok := d.(*ast.GenDecl)
+			if !ok || gd.Tok != token.VAR {
+				continue
+			}
+			for _, sp := range gd.Specs {
+				vs := sp.(*ast.ValueSpec)
+				for i, nm := range vs.Names {
+					if pkg.TypesInfo.Defs[nm] != o || len(vs.Values) == 0 {
+						continue
+					}
+					var init ast.Expr
+					if len(vs.Values) == len(vs.Names) {
+						init = vs.Values[i]
+					} else if i == 0 {
+						init = vs.Values[0]
+					}
+					if b := constBigInit(pkg, init); b != nil {
+						fc.note("package-level big.Int " + o.Name() + " read as its initial constant (assumed never mutated)")
+						return Val{T: bigLit(b), S: SInt, GoT: o.Type()}, true
+					}
+				}
+			}
+		}
+	}
 	return Val{}, false
+}
+
+// constBigInit recognises new(big.Int).SetString("..", base) and new(big.Int).SetUint64(c) / big.NewInt(c).
+func constBigInit(pkg *packages.Package, e ast.Expr) *big.Int {
+	c, ok := e.(*ast.CallExpr)
+	if !ok {
+		return nil
+	}
+	sel, ok := c.Fun.(*ast.SelectorExpr)
+	if !ok {
+		return nil
+	}
+	argConst := func(a ast.Expr) (string, bool) {
+		tv := pkg.TypesInfo.Types[a]
+		if tv.Value == nil {
+			return "", false
+		}
+		if tv.Value.Kind() == constant.String {
+			return constant.StringVal(tv.Value), true
+		}
+		return tv.Value.ExactString(), true
+	}
+	switch sel.Sel.Name {
+	case "SetString":
+		if len(c.Args) == 2 {
+			s, ok1 := argConst(c.Args[0])
+			b, ok2 := argConst(c.Args[1])
+			if ok1 && ok2 {
+				base, _ := strconv.Atoi(b)
+				v, ok := new(big.Int).SetString(s, base)
+				if ok {
+					return v
+				}
+			}
+		}
+	case "SetUint64", "SetInt64", "NewInt":
+		if len(c.Args) == 1 {
+			if s, ok := argConst(c.Args[0]); ok {
+				v, ok := new(big.Int).SetString(s, 10)
+				if ok {
+					return v
+				}
+			}
+		}
+	}
+	return nil
 }
 
 // funcSourceHash: SHA-256 of the comment-free, gofmt-normalised print of the function's AST.
